@@ -9,6 +9,7 @@ CONSTANTS
   MaxTicks = 2
   SegCap = 2
   PeriodicAdv = FALSE
+  PeriodicFix = TRUE
   EnqAnywhere = FALSE
   Record = TRUE
 INVARIANTS TypeOK OnlyLegalRemovals PostInOrderH FirstAcceptInOrderH WaitFollowsRule PurgeOnlyOld
